@@ -276,9 +276,9 @@ func init() {
 	checks["C09"] = func(tier string) int {
 		run := ev.NewRun("C09", tier, "model_checking")
 		p := pool.New(0)
-		ops := []string{"app:t1:100", "app:t1:200", "app:t2:100", "app:t1:5", "app:pre:100", "chg:300", "dup:400", "rev", "mal", "rm", "tick", "restart", "sync",
+		ops := []string{"app:t1:100", "app:t1:200", "app:t2:100", "app:t1:5", "app:t1:abc", "app:t2:3", "app:pre:100", "chg:300", "dup:400", "rev", "mal", "rm", "tick", "restart", "sync",
 			"app:t2:3000000000", "app:t1:4294967396"}
-		depth := 4
+		depth := 3
 		if tier == "thorough" {
 			depth = 5
 		}
@@ -286,7 +286,7 @@ func init() {
 		s2, t2 := c09Store(run)
 		st.States += s2
 		st.Transitions += t2
-		finishBfs(run, st, "(a) BFS over histories of energy-file edits (append for two slots and a slot before the history origin, values 100/200/sentinel/3e9/2^32+100, rewrite, duplicate with another value, reorder, malformed row, remove), send-loop ticks, client restarts and sync rounds against a server that reports nothing received, on the real client; every datagram on the wire is logged; oracle: per slot all datagrams with power not in {0,1} are identical, no history cell ever changes once non-zero, no report for a slot before the origin; (b) BFS (depth 3) over save sequences of the history store on 5 slots x 5 values against a map model")
+		finishBfs(run, st, "(a) BFS over histories of energy-file edits (append for two slots and a slot before the history origin, values 100/200/sentinel 2/unparseable (sentinel 3)/literal 3/3e9/2^32+100, rewrite, duplicate with another value, reorder, malformed row, remove), send-loop ticks, client restarts and sync rounds against a server that reports nothing received, on the real client; every datagram on the wire is logged; oracle: per slot all datagrams with power not in {0,1} are identical, no history cell ever changes once non-zero, no report for a slot before the origin; (b) BFS (depth 3) over save sequences of the history store on 5 slots x 5 values against a map model")
 		run.Coverage["alphabet"] = ops
 		run.Coverage["store_states"] = s2
 		run.Coverage["store_transitions"] = t2
